@@ -1029,3 +1029,111 @@ fn k_choose_blitter() {
     choose_blitter_case(false, 1, true); choose_blitter_case(false, 1, false);
     choose_blitter_case(false, 2, true); choose_blitter_case(false, 2, false);
 }
+
+// ------------------------------------------------------------------ fill / push_clip as drivers (C01 #11, C10 #3)
+pub static mut DRV: [u8; 8] = [0; 8];
+pub static mut DRV_N: usize = 0;
+fn drv_push(k: u8) { unsafe { if DRV_N < 8 { DRV[DRV_N] = k; } DRV_N += 1; } }
+pub static mut DRV_BOUNDS: [i32; 4] = [0; 4];
+fn apply_path_rec<Backing: AsRef<[u32]> + AsMut<[u32]>>(_dt: &mut DrawTarget<Backing>, _path: &Path) { drv_push(1); }
+fn get_bounds_rec(_r: &Rasterizer) -> IntRect { drv_push(2); unsafe { intrect(DRV_BOUNDS[0], DRV_BOUNDS[1], DRV_BOUNDS[2], DRV_BOUNDS[3]) } }
+fn rasterize_rec(_r: &mut Rasterizer, _b: &mut dyn crate::blitter::RasterBlitter, w: Winding) { drv_push(if w == Winding::EvenOdd { 3 } else { 13 }); }
+fn reset_rec(_r: &mut Rasterizer) { drv_push(5); }
+fn composite_drv<Backing: AsRef<[u32]> + AsMut<[u32]>>(dt: &mut DrawTarget<Backing>, src: &Source, mask: Option<&[u8]>, mask_rect: IntRect, rect: IntRect, blend: BlendMode, alpha: f32) {
+    drv_push(4);
+    composite_rec(dt, src, mask, mask_rect, rect, blend, alpha);
+}
+
+// @ob id=K.fill_driver props=C01,C10,C02 kind=complete unwind_complete=yes tier=quick timeout=600 fns=DrawTarget::fill
+// @+ desc="fill(): apply_path, then (iff the rasteriser bounds have positive width and height) a mask of exactly bounds.width*bounds.height+1 bytes is rasterised with the PATH's winding rule and composited with mask rect = shape rect = the bounds, the caller's blend mode and alpha; the rasteriser is reset exactly once, last, on every path (empty bounds included) -- no residue; bounds symbolic in the surface box; callees replaced by recorders"
+#[kani::proof]
+#[kani::unwind(10)]
+#[kani::stub(DrawTarget::apply_path, apply_path_rec)]
+#[kani::stub(Rasterizer::get_bounds, get_bounds_rec)]
+#[kani::stub(Rasterizer::rasterize, rasterize_rec)]
+#[kani::stub(Rasterizer::reset, reset_rec)]
+#[kani::stub(DrawTarget::composite, composite_drv)]
+fn k_fill_driver() {
+    let mut dt = DrawTarget::new(CW, CH);
+    let b: [i32; 4] = kani::any();
+    kani::assume(b[0] >= 0 && b[0] <= CW && b[2] >= 0 && b[2] <= CW && b[1] >= 0 && b[1] <= CH && b[3] >= 0 && b[3] <= CH);
+    unsafe { DRV_BOUNDS = b; DRV_N = 0; }
+    comp_reset();
+    let eo: bool = kani::any();
+    let aa: bool = kani::any();
+    let alpha: f32 = kani::any();
+    let path = Path { ops: Vec::new(), winding: if eo { Winding::EvenOdd } else { Winding::NonZero } };
+    let src = Source::Solid(SolidSource { r: 1, g: 2, b: 3, a: 255 });
+    dt.fill(&path, &src, &DrawOptions { blend_mode: BlendMode::DstOut, alpha, antialias: if aa { AntialiasMode::Gray } else { AntialiasMode::None } });
+    let n = unsafe { DRV_N };
+    let d = unsafe { DRV };
+    let (w, h) = (b[2] - b[0], b[3] - b[1]);
+    if w > 0 && h > 0 {
+        assert!(n == 5 && d[0] == 1 && d[1] == 2 && d[2] == (if eo { 3 } else { 13 }) && d[3] == 4 && d[4] == 5, "apply_path, get_bounds, rasterize(path winding), composite, reset");
+        let c = unsafe { &COMP };
+        assert!(c.has_mask && c.mask_len == (w * h) as usize + 1, "mask buffer of bounds.width*bounds.height (+1 slack) bytes");
+        assert!(c.mask_rect == intrect(b[0], b[1], b[2], b[3]) && c.rect == c.mask_rect, "mask rect = shape rect = rasteriser bounds");
+        assert!(c.blend == BlendMode::DstOut && c.alpha_bits == alpha.to_bits(), "caller's blend mode and alpha");
+    } else {
+        assert!(n == 3 && d[0] == 1 && d[1] == 2 && d[2] == 5, "empty bounds: nothing rasterised or composited, rasteriser still reset");
+    }
+    kani::cover!(w == 2 && h == 1 && !aa);
+    kani::cover!(w <= 0);
+}
+
+use crate::blitter::verif_kani::{super_blitter_sym, COV};
+fn push_clip_driver(with_clip: u8) {
+    let mut dt = wf_target_sym(with_clip);
+    let old_bounds = dt.clip_bounds();
+    let old_mask: Option<Vec<u8>> = if with_clip == 2 { dt.clip_stack[0].mask.clone() } else { None };
+    let cov: [u8; 7] = kani::any();
+    unsafe { DRV_N = 0; COV = cov; }
+    let path = Path { ops: Vec::new(), winding: Winding::EvenOdd };
+    dt.push_clip(&path);
+    let n = unsafe { DRV_N };
+    let d = unsafe { DRV };
+    assert!(n == 3 && d[0] == 1 && d[1] == 3 && d[2] == 5, "apply_path, rasterize(path winding), reset last");
+    assert!(dt.clip_stack.len() == (if with_clip > 0 { 2 } else { 1 }), "one entry pushed");
+    let top = dt.clip_stack.last().unwrap();
+    assert!(top.rect == old_bounds, "clip bounds kept");
+    match &top.mask {
+        Some(m) => {
+            assert!(m.len() == (CW * CH) as usize + 1, "full-surface coverage mask");
+            let mut i = 0;
+            while i < (CW * CH) as usize {
+                let exp = match &old_mask { Some(o) => muldiv255(cov[i] as u32, o[i] as u32) as u8, None => cov[i] };
+                assert!(m[i] == exp, "coverage = rasterised coverage x coverage of the clip paths below (muldiv255)");
+                i += 1;
+            }
+        }
+        None => assert!(false, "path clip entry carries a mask"),
+    }
+    kani::cover!(true);
+}
+// @ob id=K.push_clip_driver_0 props=C05,C10 kind=bounded:surface=3x2 tier=quick timeout=600 fns=DrawTarget::push_clip
+// @+ desc="push_clip(path) on an empty clip stack: the new entry keeps the current clip bounds (the surface when empty) and holds exactly the rasterised full-surface coverage (width*height+1 bytes, symbolic here: MaskSuperBlitter::new returns symbolic contents, rasterize is a recorder); the rasteriser is reset last"
+#[kani::proof]
+#[kani::unwind(10)]
+#[kani::stub(DrawTarget::apply_path, apply_path_rec)]
+#[kani::stub(Rasterizer::rasterize, rasterize_rec)]
+#[kani::stub(Rasterizer::reset, reset_rec)]
+#[kani::stub(MaskSuperBlitter::new, super_blitter_sym)]
+fn k_push_clip_driver_0() { push_clip_driver(0); }
+// @ob id=K.push_clip_driver_1 props=C05,C10 kind=bounded:surface=3x2 tier=quick timeout=600 fns=DrawTarget::push_clip
+// @+ desc="push_clip(path) on top of a rectangular clip: bounds kept, mask = rasterised coverage, reset last"
+#[kani::proof]
+#[kani::unwind(10)]
+#[kani::stub(DrawTarget::apply_path, apply_path_rec)]
+#[kani::stub(Rasterizer::rasterize, rasterize_rec)]
+#[kani::stub(Rasterizer::reset, reset_rec)]
+#[kani::stub(MaskSuperBlitter::new, super_blitter_sym)]
+fn k_push_clip_driver_1() { push_clip_driver(1); }
+// @ob id=K.push_clip_driver_2 props=C05,C10 kind=bounded:surface=3x2 tier=quick timeout=600 fns=DrawTarget::push_clip
+// @+ desc="push_clip(path) on top of a path clip: the new mask is the byte-wise muldiv255 product of the rasterised coverage and the previous entry's mask (so the top entry is the product of every pushed path), lower entry unchanged, reset last"
+#[kani::proof]
+#[kani::unwind(10)]
+#[kani::stub(DrawTarget::apply_path, apply_path_rec)]
+#[kani::stub(Rasterizer::rasterize, rasterize_rec)]
+#[kani::stub(Rasterizer::reset, reset_rec)]
+#[kani::stub(MaskSuperBlitter::new, super_blitter_sym)]
+fn k_push_clip_driver_2() { push_clip_driver(2); }
